@@ -198,11 +198,12 @@ static const char *vh_step(const vh_step_t *st, vh_sb *ret, vh_sb *state) {
     int nouts = 0, claimed = 0, trunc = 0, record, value_ok, rnd, i, nruns = 0, isnull[3] = {0, 0, 0}, put, exact_ok = 0;
     const char *bad = NULL, *badv = "", *p; unsigned long hin = 1469598103934665603UL;
     const char *vname[3] = {"", "", ""};
-    long g0 = xr_growth;
+    long g0 = xr_growth; int in_copy_has_pct = 1;
 
     if (strcmp(st->op, "expand") || st->nargs != 2) return "bad-step";
     set_environment(st->args[0], &hin);
     if (parse_bytes(st->args[1], &in)) return "bad-input-token";
+    if (in.n > (size_t) CONFIG_BUFF - 1) { fprintf(stderr, "input of %lu characters breaks the callers' contract\n", (unsigned long) in.n); exit(2); }
     hin = fnv(hin, in.p, in.n);
     record = (st->exp_ret[0] == '?');
     if (!record) {
@@ -269,13 +270,24 @@ static const char *vh_step(const vh_step_t *st, vh_sb *ret, vh_sb *state) {
     }
     for (i = 0; i < 3; i++) free(res[i].p);
     if (nouts > 0) free_bls(outs, nouts);
+    in_copy_has_pct = memchr(in.p, '%', in.n) != NULL;
     free(in.p);
     if (bad) return bad;
     value_ok = record || !strcmp(ret->p, st->exp_ret);
     if (!record && !strcmp(st->exp_state, "UNKNOWN")) sb_puts(state, "UNKNOWN");
-    else {
+    else if (!in_copy_has_pct && xr_laststate.n) {
+        /* no '%' in the text: no built-in can have run (the only way to one is the '%' case of the scanner), so the
+         * projection of the previous step still stands; the heap must not have grown at all */
+        sb_puts(state, xr_laststate.p);
+        if (vh_check_heap && value_ok && xr_growth - g0 != 0) {
+            snprintf(xr_msg, sizeof(xr_msg), "heap-growth=%ld-store-growth=0", xr_growth - g0);
+            return xr_msg;
+        }
+    } else {
         size_t f0 = xr_footprint;
         xr_footprint = project_store(state);
+        sb_reset(&xr_laststate); sb_puts(&xr_laststate, state->p);
+        if (record && put) return NULL;      /* recording: whether the store's growth is claimed is for the trace spec to say */
         /* C06 inside C10's calls: the heap may only have grown by what was added to the store in this step */
         if (vh_check_heap && value_ok && xr_growth - g0 != (long) xr_footprint - (long) f0) {
             snprintf(xr_msg, sizeof(xr_msg), "heap-growth=%ld-store-growth=%ld", xr_growth - g0, (long) xr_footprint - (long) f0);
